@@ -52,6 +52,14 @@
 // start on the rebuilt state): StartPoint is called again on the same RedisOutput and must give the
 // unfaulted answer; rest of the stream, stop, fresh instance — judged by the same oracle.
 //
+// Fail-over restarts (failover-N; internal/bisweep/failover.go; standalone, all three modes): the
+// source's replication ids change to [NEW, OLD] between a stop and the next start with no traffic
+// in between; the real start-up bookkeeping re-keys the root checkpoint to NEW before StartPoint;
+// states after batch 1, with frontier + journal, and at the end of a gated run; plain restart,
+// fail-over restart replaying the rest under NEW, fresh instance — ordinary oracle.  The sync
+// cluster scenario additionally gives the latest records of its first units mtimes 10 s ahead
+// of the later ones (records committed by a host with a fast clock).
+//
 // Oracle (bisweep.Judge), per DESIGN C14: resume offset R of every start ∈ {unit ends} ∪ {stream
 // start}; every unit ending at or before R is committed (complete target transaction: all business
 // commands of the unit + its record [+ index]); sync mode: R = end of the last committed unit and
@@ -127,13 +135,16 @@ func main() {
 	}
 	nOoo, nInproc, nSync := run.N(6, 160), run.N(3, 100), run.N(2, 60)
 	nFault := run.N(2, 16)
+	nFailover := run.N(3, 24)
 	switch os.Getenv("VERIF_C14_ONLY") {
+	case "failover":
+		nBase, directed, nStops, nOoo, nInproc, nSync, nFault = 0, false, 0, 0, 0, 0, 0
 	case "faults":
-		nBase, directed, nStops, nOoo, nInproc, nSync = 0, false, 0, 0, 0, 0
+		nBase, directed, nStops, nOoo, nInproc, nSync, nFailover = 0, false, 0, 0, 0, 0, 0
 	case "stops":
-		nBase, directed, nOoo, nInproc, nSync, nFault = 0, false, 0, 0, 0, 0
+		nBase, directed, nOoo, nInproc, nSync, nFault, nFailover = 0, false, 0, 0, 0, 0, 0
 	case "cluster":
-		nBase, directed, nStops, nFault = 0, false, 0, 0
+		nBase, directed, nStops, nFault, nFailover = 0, false, 0, 0, 0
 	}
 	bisweep.SyntheticSubsets(run)
 	depth := 2
@@ -145,6 +156,7 @@ func main() {
 	clusterDone := make(chan struct{})
 	cluster := func() {
 		defer close(clusterDone)
+		bisweep.FailoverRestarts(run, bisweep.FailoverOptions{NCases: nFailover, Workers: 3, Driver: d, Factory: bisweep.NewStandalone})
 		bisweep.FaultSweeps(run, bisweep.FaultOptions{NCases: nFault, Workers: 2, Driver: d, Factory: bisweep.NewStandalone})
 		bisweep.ClusterScenarios(run, bisweep.ClusterOptions{NOutOfOrder: nOoo, NInProcess: nInproc, NSyncResync: nSync, Workers: 6, Driver: d})
 	}
